@@ -244,3 +244,84 @@ Qed.
    about an empty class of renderers *)
 Definition render_spaced (imp : xsymtab) (D : dfile) : list N :=
   spaced (print_file_tokens_nc (to_symtab (dfile_symtab imp D)) D).
+
+(* ------------------------------------------------------------------ (4) the empty message option printed twice *)
+(* printOption before /repo 847fc16: an option statement whose (simplified) value is an empty message and whose
+   source is not on one line was written twice *)
+Definition dup_opts (e : selem) : selem :=
+  match e with
+  | SMsg c n o body => SMsg c n (o ++ o) body
+  | x => x
+  end.
+
+Definition w2_opt : dopt :=
+  w_opt 0 ["j5"; "ext"; "v1"; "message"] (RMsg [(bs "object", RMsg [])]).
+Definition w2_field : dfield :=
+  {| f_key := wk 0 0; f_cm := no_cmt; f_label := LNone; f_type := DSingle (DScalar (bs "string")); f_name := bs "a";
+     f_num := 1; f_json := bs "a"; f_opts := [] |}.
+Definition w2_file : dfile :=
+  {| d_pkg := [bs "hand"; bs "v1"]; d_imports := [bs "j5/ext/v1/annotations.proto"]; d_fopts := []; d_exts := [];
+     d_body := [DMsg (wk 0 0) no_cmt (bs "Multi") [w2_opt] [DField w2_field]] |}.
+Definition w2_imp : xsymtab := {| x_types := []; x_pkgs := [[bs "j5"; bs "ext"; bs "v1"]] |}.
+
+Definition w2_prev_tokens : list token :=
+  let s := lay_file (to_symtab (dfile_symtab w2_imp w2_file)) w2_file in
+  emit_file {| s_pkg := s_pkg s; s_imports := s_imports s; s_fopts := s_fopts s; s_exts := s_exts s;
+               s_body := map dup_opts (s_body s) |}.
+
+Definition msg_opt_count (d : dfile) : list nat :=
+  map (fun e => match e with DMsg _ _ _ o _ => length o | _ => 0%nat end) (d_body d).
+
+Lemma w2_wf : wf_dfile w2_imp w2_file.
+Proof. apply wf_dfile_b_sound. vm_compute. reflexivity. Qed.
+
+Lemma w2_prev_read : option_map msg_opt_count (parse_file_tokens w2_imp w2_prev_tokens) = Some [2%nat].
+Proof. vm_compute. reflexivity. Qed.
+
+Lemma opts_equiv_length a b : opts_equiv a b -> length a = length b.
+Proof. intros (m & Hp & Hf). rewrite (Permutation_length Hp). clear Hp. induction Hf; cbn; congruence. Qed.
+
+Lemma desc_equiv_opt_count d d' : desc_equiv d d' ->
+  Permutation (msg_opt_count d) (msg_opt_count d') .
+Proof.
+  intros (_ & _ & _ & _ & (m & Hp & Hf)). unfold msg_opt_count.
+  apply (Permutation_trans (Permutation_map _ Hp)). clear Hp.
+  induction Hf as [|x y l l' Hxy Hf IH]; [constructor|]. cbn [map].
+  replace (match y with DMsg _ _ _ o _ => length o | _ => 0%nat end)
+     with (match x with DMsg _ _ _ o _ => length o | _ => 0%nat end).
+  - constructor. exact IH.
+  - inversion Hxy; subst; try reflexivity. apply opts_equiv_length. assumption.
+Qed.
+
+Theorem empty_option_previous_refuted :
+  wf_dfile w2_imp w2_file
+  /\ exists D', parse_file_tokens w2_imp w2_prev_tokens = Some D' /\ ~ desc_equiv w2_file D'.
+Proof.
+  split; [exact w2_wf|]. pose proof w2_prev_read as H.
+  destruct (parse_file_tokens w2_imp w2_prev_tokens) as [D'|]; [|discriminate]. cbn [option_map] in H. injection H as H.
+  exists D'. split; [reflexivity|]. intro He. apply desc_equiv_opt_count in He. rewrite H in He.
+  change (msg_opt_count w2_file) with [1%nat] in He. apply Permutation_length_1 in He. discriminate.
+Qed.
+
+(* ------------------------------------------------------------------ (5) identifiers that protobuf does not allow *)
+(* the compiler accepts `object Élan { field naïve string }` (the BCL lexer takes unicode letters) and builds
+   message Élan { string naïve = 1; }.  The descriptor is inside the token-level theorem (identifiers are byte strings
+   there), but its printed tokens are not all tokens the lexer model can read: no rendering of them scans back.
+   (live known finding, C05 + C16) *)
+Definition w3_field : dfield :=
+  {| f_key := wk 0 0; f_cm := no_cmt; f_label := LNone; f_type := DSingle (DScalar (bs "string"));
+     f_name := [110; 97; 195; 175; 118; 101]; f_num := 1; f_json := [110; 97; 195; 175; 118; 101]; f_opts := [] |}.
+Definition w3_file : dfile :=
+  {| d_pkg := [bs "uni"; bs "v1"]; d_imports := []; d_fopts := []; d_exts := [];
+     d_body := [DMsg (wk 0 0) no_cmt [195; 137; 108; 97; 110] [] [DField w3_field]] |}.
+Definition w3_imp : xsymtab := {| x_types := []; x_pkgs := [] |}.
+Definition w3_tokens : list token := print_file_tokens_nc (to_symtab (dfile_symtab w3_imp w3_file)) w3_file.
+
+Theorem non_ascii_identifier_witness :
+  wf_dfile w3_imp w3_file
+  /\ forallb tok_ok w3_tokens = false
+  /\ scan_text (spaced w3_tokens) <> Some w3_tokens.
+Proof.
+  split; [apply wf_dfile_b_sound; vm_compute; reflexivity|]. split; [vm_compute; reflexivity|].
+  vm_compute. discriminate.
+Qed.
